@@ -95,3 +95,16 @@ def max_blocks(g):
             except Exception:
                 pass
     return m
+
+
+WINDOW_OPS = {"sliding_reduce", "sliding_window_view", "move_window", "map_overlap", "diff", "cumulative"}
+
+
+def baked_grid_key(mech, steps):
+    """The recorded finding 'Dimension N has k blocks, adjust_chunks specified with m blocks' is about a consumer that
+    baked its input's block count sitting over a *native-kernel substitution* (sliding-window family), which no gate
+    covers.  The same error in a program without such an operation means a gated pushdown changed the grid under the
+    consumer: a different mechanism, keyed apart so that it is reported."""
+    if "Dimension_has_blocks" in mech and not any(s.get("op") in WINDOW_OPS for s in steps):
+        return mech + ":without_window_op"
+    return mech
